@@ -8,4 +8,7 @@ import OsacaVerif.Model.Fmt
 import OsacaVerif.Model.Report
 import OsacaVerif.Model.ReportView
 import OsacaVerif.Spec.ReportView
+import OsacaVerif.Lemmas.Fmt
+import OsacaVerif.Lemmas.Report
+import OsacaVerif.Lemmas.ReportTable
 import OsacaVerif.Props.C13
